@@ -41,7 +41,7 @@ Definition dispatch (f : Z) (x : sx) : sx :=
   (* 1300-1304: C13, the code as it is now; 1310-1313: /repo before the fix commits e38f1486, 53c82d36, 19d38de0 (historical) *)
   | 1310 => x_pol_unitary_g false x | 1311 => x_pol_convert_g false x | 1312 => x_pol_probs_g false x | 1313 => x_pol_spec_g false x
   | 2000 => x_cat_gate x | 2001 => x_logical_zi x | 2002 => x_param_gate x | 2003 => x_crot x | 2004 => x_logical_passes x
-  | 1300 => x_pol_unitary x | 1301 => x_pol_convert x | 1302 => x_pol_probs x | 1303 => x_pol_spec x | 1304 => x_labels x | 1305 => x_pol_session x
+  | 1300 => x_pol_unitary x | 1301 => x_pol_convert x | 1302 => x_pol_probs x | 1303 => x_pol_spec x | 1304 => x_labels x | 1305 => x_pol_session x | 1306 => x_pol_processor x
   | 600 => x_get_probs x | 601 => x_one_photon x | 602 => x_prob_dist x | 603 => x_generate x | 604 => x_prob_table x
   | 605 => x_from_noise x | 606 => x_generate_filtered x | 607 => x_event_law x
   | 1003 => ConnectorX.x_conn_run_old x
